@@ -7,6 +7,7 @@ import (
 	"errors"
 	"fmt"
 	"io"
+	"reflect"
 	"strings"
 	"testing"
 
@@ -108,12 +109,28 @@ func errText(e error) string {
 	return e.Error()
 }
 
+// c14Shared: the data of the case's context, built once: the caller hands the SAME lists, maps and
+// structs to every variant ("the same template and context"); only the tick functions, which carry
+// the fault position, are made per call.
+var c14Shared pongo2.Context
+
+func c14Ctx(variant int, ts *tickState) pongo2.Context {
+	ctx := progContext(variant, ts)
+	for k, v := range c14Shared {
+		if v != nil && reflect.TypeOf(v).Kind() == reflect.Func {
+			continue
+		}
+		ctx[k] = v
+	}
+	return ctx
+}
+
 // runs all entry points with fault position k (0 = none) and checks agreement.
 // Returns the Execute() result and the number of tick calls.
 func c14RunAll(tpl *pongo2.Template, variant, k int, base *c14Result, partial string) (c14Result, int, error) {
 	mk := func() (pongo2.Context, *tickState) {
 		ts := &tickState{failAt: k}
-		ctx := progContext(variant, ts)
+		ctx := c14Ctx(variant, ts)
 		if c14BadKey {
 			ctx["not an identifier"] = 1
 		}
@@ -210,7 +227,7 @@ func (w *hiccupWriter) taken() string  { return string(w.got) }
 // c14Unbuffered runs the unbuffered variant into w and returns a recovered panic, if any
 func c14Unbuffered(tpl *pongo2.Template, variant int, w io.Writer) (pan any) {
 	defer func() { pan = recover() }()
-	_ = tpl.ExecuteWriterUnbuffered(progContext(variant, &tickState{}), w)
+	_ = tpl.ExecuteWriterUnbuffered(c14Ctx(variant, &tickState{}), w)
 	return nil
 }
 
@@ -221,7 +238,7 @@ func c14Outcome(tpl *pongo2.Template, variant, k int, entry string) (kind string
 			kind = "panic"
 		}
 	}()
-	ctx := progContext(variant, &tickState{failAt: k, panics: true})
+	ctx := c14Ctx(variant, &tickState{failAt: k, panics: true})
 	var err error
 	switch entry {
 	case "ExecuteBytes":
@@ -242,6 +259,7 @@ func c14Outcome(tpl *pongo2.Template, variant, k int, entry string) (kind string
 func checkC14(c any, r *Rec) error {
 	cs := c.(*c14Case)
 	errWriter = c14WriterErrs[cs.WErr%len(c14WriterErrs)]
+	c14Shared = progContext(cs.Variant, nil)
 	_, tpl, _, err := compileProgram(cs.Prog, cs.Trim, cs.LStrip)
 	if err != nil {
 		return skipf("program does not compile: %v | %q", err, cs.Prog.Files[cs.Prog.Entry])
@@ -254,7 +272,7 @@ func checkC14(c any, r *Rec) error {
 		return wrap(e)
 	}
 	pw := &plainWriter{}
-	_ = tpl.ExecuteWriterUnbuffered(progContext(cs.Variant, &tickState{}), pw)
+	_ = tpl.ExecuteWriterUnbuffered(c14Ctx(cs.Variant, &tickState{}), pw)
 	partial := string(pw.buf)
 	if base.err == nil && partial != base.out {
 		return wrap(fmt.Errorf("unbuffered output %q differs from Execute %q", partial, base.out))
@@ -287,7 +305,7 @@ func checkC14(c any, r *Rec) error {
 				continue
 			}
 			fw := &failingWriter{n: n}
-			e := tpl.ExecuteWriter(progContext(cs.Variant, &tickState{}), fw)
+			e := tpl.ExecuteWriter(c14Ctx(cs.Variant, &tickState{}), fw)
 			if e == nil {
 				return wrap(fmt.Errorf("caller's writer failed after %d bytes but ExecuteWriter returned nil", n))
 			}
@@ -300,11 +318,11 @@ func checkC14(c any, r *Rec) error {
 			r.Add("writer_faults", 1)
 			// the same position with writers that report the error together with progress
 			ow := &overrunWriter{limit: n}
-			if e := tpl.ExecuteWriter(progContext(cs.Variant, &tickState{}), ow); !errors.Is(e, errWriter) {
+			if e := tpl.ExecuteWriter(c14Ctx(cs.Variant, &tickState{}), ow); !errors.Is(e, errWriter) {
 				return wrap(fmt.Errorf("caller's writer reported an error together with a complete write (limit %d bytes); ExecuteWriter returned %v", n, e))
 			}
 			hw := &hiccupWriter{after: n}
-			if e := tpl.ExecuteWriter(progContext(cs.Variant, &tickState{}), hw); !errors.Is(e, errWriter) {
+			if e := tpl.ExecuteWriter(c14Ctx(cs.Variant, &tickState{}), hw); !errors.Is(e, errWriter) {
 				return wrap(fmt.Errorf("caller's writer failed once after %d bytes (with progress) and ExecuteWriter returned %v", n, e))
 			}
 			r.Add("writer_faults", 2)
@@ -356,7 +374,7 @@ func checkC14(c any, r *Rec) error {
 	// must already agree (options such as TrimBlocks are not a side effect of the buffered paths)
 	if _, fresh, _, err := compileProgram(cs.Prog, cs.Trim, cs.LStrip); err == nil {
 		fw := &plainWriter{}
-		e := fresh.ExecuteWriterUnbuffered(progContext(cs.Variant, &tickState{}), fw)
+		e := fresh.ExecuteWriterUnbuffered(c14Ctx(cs.Variant, &tickState{}), fw)
 		if errText(e) != errText(base.err) || (base.err == nil && string(fw.buf) != base.out) {
 			return wrap(fmt.Errorf("ExecuteWriterUnbuffered as FIRST execution of a fresh template (TrimBlocks=%v LStripBlocks=%v) wrote %q / %s, Execute gives %q / %s", cs.Trim, cs.LStrip, fw.buf, errText(e), base.out, errText(base.err)))
 		}
@@ -376,12 +394,16 @@ func checkC14(c any, r *Rec) error {
 
 var _ = register(&propSpec{
 	ID:   "C14.variants",
-	Rule: "generated multi-file programs with {{ tick() }} outputs; for each program the number T of tick calls is measured and EVERY fault position k in 1..T (cap 40) is injected, plus a caller's writer failing after 0/1/mid/len-1 bytes (three failure styles; the reported error drawn from a custom error, io.EOF, io.ErrShortWrite, io.ErrUnexpectedEOF, io.ErrClosedPipe, a wrapped io.EOF, bytes.ErrTooLarge); Execute, ExecuteBytes, ExecuteWriter (io.Writer, *bytes.Buffer, *strings.Builder) and ExecuteWriterUnbuffered must agree on bytes and error text, ExecuteWriter must have written nothing on failure, the unbuffered writer a prefix of the fault-free output, and a fault-free run after the failures must reproduce the original bytes; in a third of the cases every variant is also run with a context that must be rejected (a key that is no identifier) - all must refuse it, also for templates that are nothing but text. Non-trivial: T >= 2; distinct by program+context+options.",
+	Rule: "generated multi-file programs with {{ tick() }} outputs; for each program the number T of tick calls is measured and EVERY fault position k in 1..T (cap 40) is injected, plus a caller's writer failing after 0/1/mid/len-1 bytes (three failure styles; the reported error drawn from a custom error, io.EOF, io.ErrShortWrite, io.ErrUnexpectedEOF, io.ErrClosedPipe, a wrapped io.EOF, bytes.ErrTooLarge); Execute, ExecuteBytes, ExecuteWriter (io.Writer, *bytes.Buffer, *strings.Builder) and ExecuteWriterUnbuffered must agree on bytes and error text - they are handed the SAME lists, maps and structs, as a caller's context would (a third of the programs first print the context's lists in their own order) -, ExecuteWriter must have written nothing on failure, the unbuffered writer a prefix of the fault-free output, and a fault-free run after the failures must reproduce the original bytes; in a third of the cases every variant is also run with a context that must be rejected (a key that is no identifier) - all must refuse it, also for templates that are nothing but text. Non-trivial: T >= 2; distinct by program+context+options.",
 	Gen: func(t *rapid.T) any {
 		prog := genProgram(t, progOpts{ticks: true, includes: true, inherit: true, stateful: true, errProne: drawInt(t, 0, 4, "errprone") == 0, maxDepth: 3, maxNodes: 25})
 		if drawInt(t, 0, 9, "textonly") == 0 {
 			// degenerate shapes: nothing but literal text, a single variable, an empty template
 			prog.Files[prog.Entry] = pick(t, "degenerate", []string{"just text\n", "", "{{ name }}", "a{# c #}b", "{% comment %}x{% endcomment %}"})
+		}
+		if src := prog.Files[prog.Entry]; !strings.Contains(src, "extends") && drawInt(t, 0, 2, "prologue") == 0 {
+			// the lists of the context, printed in their own order before anything else is done with them
+			prog.Files[prog.Entry] = `{{ items|join:"," }}|{{ nums|join:"," }}|{{ words|join:"," }}|` + src
 		}
 		return &c14Case{
 			Prog:    prog,
